@@ -886,6 +886,46 @@ def facts(repo, build_dir, variant="asan", log=None):
     return recs, stats
 
 
+def facts_unbuilt(repo, build_dir, variant="asan"):
+    """Fact records of the C files under src/ that the default configuration does NOT compile (other back ends,
+    optional modules, files no cmake list mentions).  Parsed with the default -D/-I set; files that do not parse in
+    this environment (foreign platform headers, stale code) are returned by name.  -> (records, unparsed{file: why})"""
+    import glob
+    repo = os.path.abspath(repo)
+    cache = os.path.join(build_dir, "astcache")
+    os.makedirs(cache, exist_ok=True)
+    srcs = source_list(build_dir, variant)
+    built = {os.path.abspath(s[0]) for s in srcs}
+    defs, incs = (srcs[0][1], srcs[0][2]) if srcs else ("", "-I%s/include" % repo)
+    extra = sorted(p for p in glob.glob(os.path.join(repo, "src", "*.c")) + glob.glob(os.path.join(repo, "src", "*", "*.c")) if os.path.abspath(p) not in built)
+
+    def one(src):
+        try:
+            k = _key(src, incs, defs, repo)
+        except RuntimeError as e:
+            return src, None, str(e)[-160:].replace("\n", " ")
+        path = os.path.join(cache, k + ".json")
+        if os.path.exists(path):
+            try:
+                return src, json.load(open(path)), None
+            except (OSError, ValueError):
+                pass
+        p = subprocess.run([sys.executable, os.path.abspath(__file__), "--one", src, incs, defs, repo], stdout=subprocess.PIPE, stderr=subprocess.PIPE)
+        if p.returncode != 0:
+            return src, None, p.stderr.decode()[-160:].replace("\n", " ")
+        fd, tmp = tempfile.mkstemp(dir=cache, prefix=".tmp%d_" % os.getpid())
+        with os.fdopen(fd, "wb") as f:
+            f.write(p.stdout)
+        os.replace(tmp, path)
+        return src, json.loads(p.stdout), None
+
+    with ThreadPoolExecutor(JOBS) as ex:
+        res = list(ex.map(one, extra))
+    recs = [r for (_, r, _) in res if r is not None]
+    unparsed = {os.path.relpath(s, repo): why for (s, r, why) in res if r is None}
+    return recs, unparsed
+
+
 # ----------------------------------------------------------------------------- Coq emission helpers
 def coq_str(s):
     s = "".join(ch if 32 <= ord(ch) < 127 else "?" for ch in str(s))
